@@ -18,10 +18,12 @@
                                         registered sale contract; the handler can run iff it does and
                                         the client holds no licence yet
 
-    Three things come from the translated source (Gen.C02): the threshold 66 / 100, whether Attest
-    appends a vote only when it is not yet in [Votes] ([vote_dedup]), and whether TryAttestation
+    These come from the translated source (Gen.C02): the threshold 66 / 100, whether Attest
+    appends a vote only when it is not yet in [Votes] ([vote_dedup]), whether TryAttestation
     records the remote block height (the step that can still fail) before it moves the cursor
-    ([height_before_cursor]). *)
+    ([height_before_cursor]), whether attestationTally returns TryAttestation's error
+    ([tally_aborts_on_error]), whether the claim handlers require a Bonded validator
+    ([vote_requires_bonded]). *)
 From Coq Require Import List ZArith Bool.
 From Paloma Require Import Base.Num.
 From Paloma Require Gen.C02.
@@ -180,7 +182,7 @@ Definition batch_precheck (s : state) (c : claim) : bool :=
 (** Is the vote accepted in state [s]?  checkOrchestratorValidatorInSet: the orchestrator is the
     operator of a validator that has a staking record ([known]) whose status is Bonded. *)
 Definition vote_ok (s : state) (v : Z) (known : bool) (c : claim) : bool :=
-  known && mem v (bonded s) && batch_precheck s c && valid_claim c && (c_nonce c =? u64 (val_last s v + 1))
+  known && (negb Gen.C02.vote_requires_bonded || mem v (bonded s)) && batch_precheck s c && valid_claim c && (c_nonce c =? u64 (val_last s v + 1))
   && (c_height (a_claim (vote_att s c)) =? c_height c).
 
 Definition vote (s : state) (v : Z) (known : bool) (c : claim) : state :=
@@ -265,7 +267,7 @@ Fixpoint tally_loop (l : list (Z * Z * att)) (s : state) : state * bool :=
       if n =? u64 (last_obs s + 1) then
         match try_att s a with
         | (s', true) => tally_loop r s'
-        | (s', false) => (s', false)
+        | (s', false) => if Gen.C02.tally_aborts_on_error then (s', false) else tally_loop r s'
         end
       else tally_loop r s
   end.
